@@ -35,6 +35,19 @@ func runC16(c *Ctx, r *Report) {
 	c16EscapeTable(c, r)
 	c16EscapedWrites(c, r)
 	c16RuneNarrowing(c, r)
+	// (f) building the object cannot crash: every index / slice expression of the JSON writer is in range
+	if bce, err := bceList(c); err != nil {
+		r.Undecided("C16-f/bce", "compiler", "listing", "-", err.Error())
+	} else {
+		rev := append(append([]reviewedEntry{}, reviewedExpr...), reviewedRender...)
+		pe := &panicEngine{c: c, bce: bce, reviewed: rev, scope: map[ast.Node]bool{}}
+		for _, fi := range c.AllFuncDecls(minijsonPkg) {
+			pe.scope[fi.Decl] = true
+		}
+		pe.run(minijsonPkg)
+		pe.emit(r, "C16-f", nil)
+		r.Floor("C16-f/index", 2, "escapeLookup[r] and the byte scans of isNumeric")
+	}
 }
 
 func jsonEscapeOK(k int64, v string) bool {
